@@ -5,6 +5,8 @@
 //
 //	cli <cmechs> <adv> <steps> <peer>  ->  <authn> <err> <used> <sent> <calls>
 //	srv <smechs> <steps> <perm> <peer> ->  <authn> <err> <sent> <perms>
+//	srvw <n> <smechs> <steps> <perm> <peer> -> same; the receiver's connection accepts n
+//	    SASL elements and fails every write after them
 //
 // cmechs/smechs: configured mechanism names in order.  A name starting with "M" is a
 // scripted mechanism; PLAIN (server side) is the real sasl.Plain, modelled concretely;
@@ -329,6 +331,8 @@ func errClass(res negResult, t *trace) string {
 	switch {
 	case err == nil:
 		return "nil"
+	case errors.Is(err, nc.ErrWrite):
+		return "write"
 	case errors.Is(err, sasl.ErrAuthn):
 		return "authnerr"
 	case t.lastErr != nil && errors.Is(err, t.lastErr):
@@ -576,9 +580,14 @@ type srvCase struct {
 	steps []step
 	perm  string
 	peer  []string
+	// wfail > 0: the wfail-th SASL element the receiver writes (and every later write) fails
+	wfail int
 }
 
 func (c srvCase) line() string {
+	if c.wfail > 0 {
+		return fmt.Sprintf("srvw %d %s %s %s %s", c.wfail-1, common.Join(c.mechs, ","), fieldSteps(c.steps), c.perm, common.Join(c.peer, ","))
+	}
 	return fmt.Sprintf("srv %s %s %s %s", common.Join(c.mechs, ","), fieldSteps(c.steps), c.perm, common.Join(c.peer, ","))
 }
 
@@ -681,6 +690,10 @@ func runServer(r *common.Run, c srvCase, class string) error {
 		return nil
 	}})
 	conn := nc.NewConn(chunks...)
+	if c.wfail > 0 {
+		// writes 1 and 2 are the stream header and the features list
+		conn.FailWriteCall = 2 + c.wfail
+	}
 	res := negotiate(conn, true, xmpp.SASLServer(perm, mechs...))
 
 	streams, perr := nc.ParseWritten(conn.Written())
@@ -1056,6 +1069,20 @@ func Run(r *common.Run) error {
 		_ = runServer(r, srvCase{mechs: []string{"M1"}, steps: []step{{kind: "d"}}, perm: perm, peer: []string{"APLAIN/" + plainPayloads()[0]}}, "srv-plain-unconfigured")
 	}
 
+	// ---- server role: write failures at every position ----
+	for _, sc := range sscripts {
+		for _, peer := range [][]string{{"AM1/v01"}, {"AM1/v01", "Rv02"}, {"AM1/v01", "Rv02", "R-"}, {"AMX/v01"}, {"Rv01"}, {"B"}, {"AM1/v01", "B"}, {"AM1/bad"}} {
+			for wf := 1; wf <= 3; wf++ {
+				_ = runServer(r, srvCase{mechs: []string{"M1"}, steps: sc, perm: "any", peer: peer, wfail: wf}, "srv-writefail")
+			}
+		}
+	}
+	for _, perm := range []string{uh + "/" + ph, "none"} {
+		for wf := 1; wf <= 2; wf++ {
+			_ = runServer(r, srvCase{mechs: []string{"PLAIN"}, perm: perm, peer: []string{"APLAIN/" + plainPayloads()[0]}, wfail: wf}, "srv-writefail-plain")
+		}
+	}
+
 	// ---- server role: random ----
 	nr = r.Pick(1000, 15000)
 	for i := 0; i < nr; i++ {
@@ -1119,6 +1146,14 @@ func replayLine(r *common.Run, l string) error {
 			return err
 		}
 		return runClient(r, cliCase{mechs: list(f[1]), adv: list(f[2]), steps: st, peer: list(f[4])}, "replay")
+	case f[0] == "srvw" && len(f) == 6:
+		st, err := steps(f[3])
+		if err != nil {
+			return err
+		}
+		n := 0
+		fmt.Sscanf(f[1], "%d", &n)
+		return runServer(r, srvCase{mechs: list(f[2]), steps: st, perm: f[4], peer: list(f[5]), wfail: n + 1}, "replay")
 	case f[0] == "srv" && len(f) == 5:
 		st, err := steps(f[2])
 		if err != nil {
